@@ -69,7 +69,7 @@ def worker_init():
 def _reserved():
     out = set()
     for cls in (BaseIsotherm, pygaps.PointIsotherm, pygaps.ModelIsotherm):
-        out.update(p for p in inspect.signature(cls.__init__).parameters if p != "self")
+        out.update(inspect.signature(cls.__init__).parameters)  # includes 'self'
         out.update(cls._reserved_params)
         out.update(cls._unit_params)
     out.update(["m", "t", "a", "file_version", "isotherm_data", "isotherm_model", "iso_id", "plot_fit",
@@ -822,10 +822,10 @@ def kf_dr_da_minus_rt(check_name, desc, viol):
 
 
 CHECKS = [
-    Check("base", check_base, strategy=strat_base, budget={"quick": 3000, "thorough": 50000},
+    Check("base", check_base, strategy=strat_base, budget={"quick": 3000, "thorough": 40000},
           rule="metadata-only isotherms: rich recursive metadata, material as name/dict/object, all unit configurations"),
-    Check("point", check_point, strategy=point_strategy, budget={"quick": 3000, "thorough": 50000},
+    Check("point", check_point, strategy=point_strategy, budget={"quick": 3000, "thorough": 40000},
           rule="point isotherms: 1-60 rows, all branch assignments, extra columns, custom keys, row labels"),
-    Check("model", check_model, strategy=model_strategy, budget={"quick": 1600, "thorough": 24000}, shrink_quick=False,
+    Check("model", check_model, strategy=model_strategy, budget={"quick": 1600, "thorough": 16000}, shrink_quick=False,
           rule="all 16 models from an instance, 11 models fitted; name, parameters, ranges, rmse, 16 predictions"),
 ]
